@@ -290,6 +290,32 @@ def inline_local_lambda_calls(unit, stmts):
     return out
 
 
+def resolve_lambda(unit, fn, node):
+    """the lambda expression a function-object argument denotes: the lambda itself, or the initialiser of the never-rewritten
+    local it names (through by-value copies); None otherwise"""
+    from . import facts as F
+    n = unwrap(unit, node)
+    for _ in range(4):
+        if n is None:
+            return None
+        if n.get("k") == "lambda":
+            return n
+        if n.get("k") == "construct" and len(n.get("args", [])) == 1:
+            n = unwrap(unit, n["args"][0])
+            continue
+        if n.get("k") in ("cast", "icast") and n.get("e") is not None:
+            n = unwrap(unit, n["e"])
+            continue
+        if n.get("k") == "ref" and n.get("dk") == "local" and n.get("id") in const_local_defs(unit, fn):
+            inits = [v for v in F.walk(fn.get("body"), into_lambdas=True) if v.get("k") == "var" and v.get("id") == n.get("id") and v.get("init") is not None]
+            if len(inits) != 1:
+                return None
+            n = unwrap(unit, inits[0]["init"])
+            continue
+        return None
+    return None
+
+
 def snorm(unit, fn, n):
     """norm() with the function's never-rewritten locals replaced by their initialisers"""
     return norm(unit, n, const_local_defs(unit, fn))
